@@ -281,7 +281,10 @@ pub fn profile(name: &str) -> Profile {
             w.push((DeleteAll, 1));
             w.push((DeleteBatch, 3));
             w.push((DeleteDeferred, 3));
-            w.push((LazyInsert, 2));
+            w.push((LazyInsert, 3));
+            w.push((LazyInsertAll, 3));
+            w.push((LazyRemove, 2));
+            w.push((BuilderDropped, 2));
             Profile {
                 name: "tracked",
                 weights: w,
@@ -721,7 +724,14 @@ impl Gen {
                 }
                 OpKind::CreateIterNow(if self.prof.bulk { self.rng.range(1, 130) } else { self.rng.range(0, 4) } as u8)
             }
-            BuilderDropped => OpKind::BuilderDropped(self.comps(ex, 2)),
+            BuilderDropped => {
+                let c = self.comps(ex, 2);
+                if self.rng.chance(1, 3) {
+                    OpKind::BuilderUnwound(c)
+                } else {
+                    OpKind::BuilderDropped(c)
+                }
+            }
             CreateDeferred => {
                 if many {
                     return None;
